@@ -12,7 +12,8 @@ FUNCTIONS = ['uxarray.grid.connectivity._replace_fill_values',
     'uxarray.grid.coordinates._xyz_to_lonlat_deg@arrays',
     'uxarray.grid.coordinates._normalize_xyz@arrays',
     'uxarray.grid.coordinates._lonlat_rad_to_xyz@arrays',
-    'uxarray.io._esmf._read_esmf']
+    'uxarray.io._esmf._read_esmf',
+    'uxarray.io._ugrid._standardize_connectivity']
 STANDINS = ["sharing", "explicit_spec"]
 ASSUMPTIONS = []
 EXPLANATION = ""
